@@ -33,13 +33,20 @@ def load_rules(path):
         for c in n.get('inner',[]): visit(c)
     for o in objs: visit(o)
     # explicit full specialisations appear as ClassTemplateSpecializationDecl at namespace level: handled by visit
+    funcs={}
+    def fvisit(n):
+        if n.get('kind')=='FunctionDecl' and n.get('name') and any(c.get('kind')=='CompoundStmt' for c in n.get('inner',[])):
+            funcs[n['name']]=n
+        for c in n.get('inner',[]): fvisit(c)
+    for o in objs: fvisit(o)
+    rules['__functions__']=funcs
     return rules
 
 TOK=re.compile(r'\s*(?:(?P<op> (?:<=|>=|==|!=|<|>) )|(?P<id>[A-Za-z_][\w]*(?:::[A-Za-z_][\w]*)*)|(?P<num>\d+)|(?P<dots>\.\.\.)|(?P<p>[<>,()]))')
 def tokenize(s):
     out=[]; i=0
     while i < len(s):
-        m=re.compile(r'(?P<op> (?:<=|>=|==|!=|<|>) )|\s+|(?P<id>[A-Za-z_]\w*(?:::[A-Za-z_]\w*)*)|(?P<num>\d+)|(?P<dots>\.\.\.)|(?P<p>::|[<>,()])').match(s,i)
+        m=re.compile(r'(?P<op> (?:<=|>=|==|!=|<|>|&&|\|\||\+|-|\*|/|%) )|\s+|(?P<id>[A-Za-z_]\w*(?:::[A-Za-z_]\w*)*)|(?P<num>\d+)(?:[uU]?[lL]{0,2})|(?P<dots>\.\.\.)|(?P<p>::|[<>,()!])').match(s,i)
         if not m: raise SyntaxError(s[i:i+30])
         i=m.end()
         for k in ('op','id','num','dots','p'):
@@ -51,14 +58,16 @@ class P:
     def next(s): x=s.peek(); s.i+=1; return x
     def expr(s):   # template-argument expression / type
         lhs=s.primary()
-        if s.peek()[0]=='op':
-            op=s.next()[1]; rhs=s.primary(); lhs=('bin',op,lhs,rhs)
+        while s.peek()[0]=='op':
+            op=s.next()[1]; rhs=s.primary(); lhs=('bin',op,lhs,rhs)    # left-assoc, no precedence: clang prints parentheses where needed
         if s.peek()[0]=='dots': s.next(); lhs=('expand',lhs)
         return lhs
     def primary(s):
         k,v=s.next()
         if (k,v)==('p','('):
             e=s.expr(); assert s.next()==('p',')'); return e
+        if (k,v)==('p','!'):
+            return ('not',s.primary())
         if k=='num': return ('num',int(v))
         if k=='id' and v in('typename','unsigned','long','const'):
             if v=='typename':
@@ -68,6 +77,15 @@ class P:
             return ('ty','ulong')
         if k=='id':
             name=v; node=('name',name)
+            if s.peek()==('p','(') and name not in('typename',):
+                s.next(); args=[]
+                if s.peek()!=('p',')'):
+                    while True:
+                        args.append(s.expr())
+                        if s.peek()==('p',','): s.next(); continue
+                        break
+                assert s.next()==('p',')'), 'expected )'
+                return ('call',name,args)
             if s.peek()==('p','<'):
                 s.next(); args=[]
                 if s.peek()!=('p','>'):
@@ -101,11 +119,11 @@ class Ev:
                 for a in node[2]:
                     if a==('ty','ulong') or a==('name','std::size_t') or a==('name','size_t'): continue
                     if a[0]=='expand': elems+=env[a[1][1]]
-                    else: elems.append(s.scalar(a,env))
+                    else: elems.append(s.elem(a,env))
                 return [(pc,('seq',elems))]
-            if nm=='integral_constant': return [(pc,('ic',s.scalar(node[2][1],env)))]
+            if nm=='integral_constant': return [(pc,('ic',s.elem(node[2][1],env)))]
             if nm=='conditional_t':
-                c=s.scalar(node[2][0],env); out=[]
+                c=s.cond(node[2][0],env); out=[]
                 for cond,br in ((c,node[2][1]),(Not(c),node[2][2])):
                     pc2=pc+[cond]
                     if s.feasible(pc2): out+=s.ev(br,env,pc2)
@@ -132,13 +150,131 @@ class Ev:
         if k=='name':
             if s.norm(node[1])=='false_type': return [(pc,('bool',BoolVal(False)))]
         raise Exception(f'ev {node}')
+    # ---- typed scalars: (term, bits, signed) ; comparisons / logic give z3 Bools
+    TYPES={'int':(32,True),'unsigned int':(32,False),'unsigned':(32,False),'long':(64,True),'unsigned long':(64,False),
+           'std::size_t':(64,False),'size_t':(64,False),'long long':(64,True),'unsigned long long':(64,False),'bool':(1,False),
+           'char':(8,True),'signed char':(8,True),'unsigned char':(8,False),'short':(16,True),'unsigned short':(16,False),
+           'std::ptrdiff_t':(64,True),'ptrdiff_t':(64,True),'std::int32_t':(32,True),'std::uint32_t':(32,False),
+           'std::int64_t':(64,True),'std::uint64_t':(64,False),'int32_t':(32,True),'uint32_t':(32,False),'int64_t':(64,True),'uint64_t':(64,False)}
+    def ty(s,q):
+        q=q.replace('const ','').strip()
+        if q not in s.TYPES: raise Exception('unsupported scalar type '+q)
+        return s.TYPES[q]
+    def conv(s,v,bits,signed):
+        if isinstance(v,BoolRef): v=(If(v,BitVecVal(1,32),BitVecVal(0,32)),32,True)
+        t,b,sg=v
+        if bits==1: return (If(t!=0,BitVecVal(1,1),BitVecVal(0,1)),1,False)
+        if b==bits: return (t,bits,signed)
+        if b>bits: return (Extract(bits-1,0,t),bits,signed)
+        return ((SignExt(bits-b,t) if sg else ZeroExt(bits-b,t)),bits,signed)
+    def promote(s,v):
+        if isinstance(v,BoolRef): return s.conv(v,32,True)
+        if v[1]<32: return s.conv(v,32,True)
+        return v
+    def common(s,a,b):
+        a,b=s.promote(a),s.promote(b)
+        if a[1]==b[1]: sg=a[2] and b[2]; return (a[0],a[1],sg),(b[0],b[1],sg)
+        w=max(a[1],b[1]); wide=a if a[1]==w else b
+        return s.conv(a,w,wide[2]),s.conv(b,w,wide[2])
+    def truth(s,v):
+        if isinstance(v,BoolRef): return v
+        return v[0]!=0
+    def binop(s,op,a,b):
+        if op in('&&','||'):
+            x,y=s.truth(a),s.truth(b); return And(x,y) if op=='&&' else Or(x,y)
+        a,b=s.common(a,b); x,y,sg=a[0],b[0],a[2]
+        if op in('<','>','<=','>=','==','!='):
+            if sg: return {'<':x<y,'>':x>y,'<=':x<=y,'>=':x>=y,'==':x==y,'!=':x!=y}[op]
+            return {'<':ULT(x,y),'>':UGT(x,y),'<=':ULE(x,y),'>=':UGE(x,y),'==':x==y,'!=':x!=y}[op]
+        r={'+':lambda:x+y,'-':lambda:x-y,'*':lambda:x*y,'/':lambda:(x/y if sg else UDiv(x,y)),'%':lambda:(SRem(x,y) if sg else URem(x,y)),
+           '&':lambda:x&y,'|':lambda:x|y,'^':lambda:x^y,'<<':lambda:x<<y,'>>':lambda:(x>>y if sg else LShR(x,y))}[op]()
+        return (r,a[1],sg)
     def scalar(s,node,env):
-        if node[0]=='num': return BitVecVal(node[1],64)
-        if node[0]=='name': return env[node[1]]
-        if node[0]=='bin':
-            a,b=s.scalar(node[2],env),s.scalar(node[3],env)
-            return {'<':ULT(a,b),'>':UGT(a,b),'<=':ULE(a,b),'>=':UGE(a,b),'==':a==b,'!=':a!=b}[node[1]]
+        """value of a template-argument expression; sequence elements are converted to size_t by the caller (elem)"""
+        k=node[0]
+        if k=='num': return (BitVecVal(node[1],32),32,True) if node[1] < 2**31 else (BitVecVal(node[1],64),64,False)
+        if k=='name':
+            v=env[node[1]]
+            return v if isinstance(v,(tuple,BoolRef)) else (v,64,False)
+        if k=='not': return Not(s.truth(s.scalar(node[1],env)))
+        if k=='bin': return s.binop(node[1],s.scalar(node[2],env),s.scalar(node[3],env))
+        if k=='call':
+            fn=s.rules['__functions__'].get(s.norm(node[1]))
+            if fn is None: raise Exception('call to unknown function '+node[1])
+            return s.call(fn,[s.scalar(a,env) for a in node[2]])
         raise Exception(f'scalar {node}')
+    def elem(s,node,env):
+        v=s.scalar(node,env)
+        return s.conv(v,64,False)[0]
+    def cond(s,node,env):
+        return s.truth(s.scalar(node,env))
+    # ---- constexpr functions: evaluated on clang's typed AST
+    def call(s,fn,args):
+        params=[c for c in fn.get('inner',[]) if c.get('kind')=='ParmVarDecl']
+        if len(params)!=len(args): raise Exception('arity of '+fn['name'])
+        env={}
+        for p,a in zip(params,args):
+            b,sg=s.ty(p['type']['qualType']); env[p['name']]=s.conv(a,b,sg)
+        body=[c for c in fn['inner'] if c.get('kind')=='CompoundStmt'][0]
+        r=s.stmts(body.get('inner',[]),env)
+        if r is None: raise Exception('function without return: '+fn['name'])
+        b,sg=s.ty(fn['type']['qualType'].split('(')[0].strip())
+        return s.conv(r,b,sg) if b!=1 else s.truth(r)
+    def stmts(s,lst,env):
+        for i,st in enumerate(lst):
+            k=st.get('kind')
+            if k=='ReturnStmt': return s.jexpr(st['inner'][0],env)
+            if k=='IfStmt':
+                inner=st['inner']; c=s.truth(s.jexpr(inner[0],env))
+                th=s.stmts([inner[1]] if inner[1].get('kind')!='CompoundStmt' else inner[1].get('inner',[]),env)
+                if len(inner)>2:
+                    el=s.stmts([inner[2]] if inner[2].get('kind')!='CompoundStmt' else inner[2].get('inner',[]),env)
+                else:
+                    el=s.stmts(lst[i+1:],env)
+                if th is None or el is None: raise Exception('if without return on a branch')
+                if isinstance(th,BoolRef) or isinstance(el,BoolRef): return If(c,s.truth(th),s.truth(el))
+                a,b=s.common(th,el); return (If(c,a[0],b[0]),a[1],a[2])
+            if k=='CompoundStmt':
+                r=s.stmts(st.get('inner',[]),env)
+                if r is not None: return r
+                continue
+            if k in('NullStmt',): continue
+            raise Exception('unsupported statement '+str(k))
+        return None
+    def jexpr(s,n,env):
+        k=n.get('kind')
+        if k in('ParenExpr','ConstantExpr','ExprWithCleanups'): return s.jexpr(n['inner'][0],env)
+        if k=='IntegerLiteral':
+            b,sg=s.ty(n['type']['qualType']); return (BitVecVal(int(n['value']),b),b,sg)
+        if k=='CXXBoolLiteralExpr': return BoolVal(bool(n.get('value')))
+        if k=='DeclRefExpr': return env[n['referencedDecl']['name']]
+        if k in('ImplicitCastExpr','CXXStaticCastExpr','CStyleCastExpr','CXXFunctionalCastExpr'):
+            v=s.jexpr(n['inner'][0],env); ck=n.get('castKind')
+            if ck in('LValueToRValue','NoOp','FunctionToPointerDecay'): return v
+            if ck in('IntegralCast','IntegralToBoolean'):
+                b,sg=s.ty(n['type']['qualType'])
+                return s.truth(v) if b==1 else s.conv(v,b,sg)
+            raise Exception('unsupported cast '+str(ck))
+        if k=='BinaryOperator': return s.binop(n['opcode'],s.jexpr(n['inner'][0],env),s.jexpr(n['inner'][1],env))
+        if k=='UnaryOperator':
+            v=s.jexpr(n['inner'][0],env); op=n['opcode']
+            if op=='!': return Not(s.truth(v))
+            v=s.promote(v)
+            if op=='-': return (-v[0],v[1],v[2])
+            if op=='~': return (~v[0],v[1],v[2])
+            if op=='+': return v
+            raise Exception('unsupported unary '+op)
+        if k=='ConditionalOperator':
+            c=s.truth(s.jexpr(n['inner'][0],env)); a=s.jexpr(n['inner'][1],env); b=s.jexpr(n['inner'][2],env)
+            if isinstance(a,BoolRef) or isinstance(b,BoolRef): return If(c,s.truth(a),s.truth(b))
+            a,b=s.common(a,b); return (If(c,a[0],b[0]),a[1],a[2])
+        if k=='CallExpr':
+            callee=n['inner'][0]
+            while callee.get('kind') in('ImplicitCastExpr','ParenExpr'): callee=callee['inner'][0]
+            fn=s.rules['__functions__'].get(callee['referencedDecl']['name'])
+            if fn is None: raise Exception('call to unknown function')
+            return s.call(fn,[s.jexpr(a,env) for a in n['inner'][1:]])
+        raise Exception('unsupported expression '+str(k))
     def match(s,rule,vals):
         """structural match of specialisation patterns against values -> env or None"""
         if rule['primary']: return None
